@@ -34,6 +34,9 @@ ENDLESS = {
     # a start request made while the run is in progress is refused; the run's budget is not the requester's to renew
     "start-request-loop": ('for "_i" from 0 to 1 step 0 do {vmctrl__ "start"};', False),
     "start-request-loop-scheduled": ('gA = 0; while {true} do {gA = gA + 1; vmctrl__ "start"};', True),
+    # expressions evaluated while the run is in progress (preprocessing a text with __EVAL from a script) belong to that run
+    "eval-in-run": ('gA = 0; x = preprocess__ "' + " ".join('__EVAL(call {for \"\"_i\"\" from 0 to 1 step 0 do {}; %d})' % i for i in (1, 2, 3)) + '";', False),
+    "eval-in-run-late": ('gT = time; for "_i" from 0 to 1 step 0 do {if (time - gT > 1) exitWith {}}; x = preprocess__ "' + " ".join('__EVAL(call {for \"\"_i\"\" from 0 to 1 step 0 do {}; %d})' % i for i in (1, 2)) + '";', False),
     "start-request-once": ('gT = time; for "_i" from 0 to 1 step 0 do {if (time - gT > 1) exitWith {}}; vmctrl__ "start"; for "_i" from 0 to 1 step 0 do {gA = 1};', False),
 }
 
@@ -59,6 +62,10 @@ def make_cases(rng, tier):
                 # the embedder evaluates an expression (runtime::evaluate_expression, what __EVAL uses while the next script is preprocessed)
                 runs.append({"advance_ms": adv, "eval": short_script(k) + "1"})
                 kinds.append(("short", k))
+            def endless_eval(adv=0):
+                # the embedder evaluates an expression that never ends by itself: the evaluation is an execution of its own
+                runs.append({"advance_ms": adv, "eval": 'for "_i" from 0 to 1 step 0 do {gA = 1}; 1'})
+                kinds.append(("endless:eval", 0))
             if hist == "then-eval":
                 endless_run(); short_eval(); short_run(); short_eval(adv=MAXMS * 2)
             elif hist == "alone":
@@ -72,6 +79,22 @@ def make_cases(rng, tier):
             n += 1
             cases.append({"id": "lim%d-%s-%s" % (n, name, hist), "runs": runs, "kinds": kinds,
                           "conf": {"max_runtime_ms": MAXMS, "clock": {"start_ms": 5000, "tick_us": 1000}, "max_loop": 10000}})
+    # an endless evaluation (outside a run) is cut short by the limit; whatever follows executes normally
+    for follow in ("short", "eval", "endless"):
+        n += 1
+        runs = [{"advance_ms": 0, "eval": 'for "_i" from 0 to 1 step 0 do {gA = 1}; 1'}]
+        kinds = [("endless:eval", 0)]
+        if follow == "short":
+            runs += [{"advance_ms": 0, "scripts": [{"name": "s", "text": short_script(4), "suspend": False}]}, {"advance_ms": MAXMS * 2, "eval": short_script(3) + "1"}]
+            kinds += [("short", 4), ("short", 3)]
+        elif follow == "eval":
+            runs += [{"advance_ms": 0, "eval": short_script(3) + "1"}, {"advance_ms": 0, "scripts": [{"name": "s", "text": short_script(4), "suspend": True}]}]
+            kinds += [("short", 3), ("short", 4)]
+        else:
+            runs += [{"advance_ms": 0, "scripts": [{"name": "e", "text": ENDLESS["while-scheduled"][0], "suspend": True}]}, {"advance_ms": 0, "scripts": [{"name": "s", "text": short_script(4), "suspend": False}]}]
+            kinds += [("endless:while-scheduled", 0), ("short", 4)]
+        cases.append({"id": "evalend%d-%s" % (n, follow), "runs": runs, "kinds": kinds,
+                      "conf": {"max_runtime_ms": MAXMS, "clock": {"start_ms": 5000, "tick_us": 1000}, "max_loop": 10000}})
     # only short runs with idle gaps of every size (the VM grows older than the limit)
     for gap in (0, MAXMS - 100, MAXMS + 1, MAXMS * 4):
         for k in (1, 8):
@@ -165,10 +188,10 @@ def run(rep, tier, seed, replay):
     if replay:
         cases = [json.load(open(replay))["case"]]
     else:
-        def cfg(name, a, b, c, d="TRUE", e="TRUE"):
+        def cfg(name, a, b, c, d="TRUE", e="TRUE", f="TRUE"):
             p = os.path.join(vlib.SPEC, "gen_%s.cfg" % name)
-            open(p, "w").write("SPECIFICATION Spec\nCONSTANTS\n  BudgetFromRunStart = %s\n  DeadlineWhileAsleep = %s\n  EmptyBodyCounts = %s\n  EvalIsOwnExecution = %s\n  RefusedStartKeepsBudget = %s\n  Max = 12\n  Slack = 2\n  Cap = 3\n"
-                               "INVARIANTS InvRunEndsInTime InvAbortReported InvLaterRuns InvWhileCapped InvRunningInTime\n" % (a, b, c, d, e))
+            open(p, "w").write("SPECIFICATION Spec\nCONSTANTS\n  BudgetFromRunStart = %s\n  DeadlineWhileAsleep = %s\n  EmptyBodyCounts = %s\n  EvalIsOwnExecution = %s\n  RefusedStartKeepsBudget = %s\n  NestedEvalSharesBudget = %s\n  Max = 12\n  Slack = 2\n  Cap = 3\n"
+                               "INVARIANTS InvRunEndsInTime InvAbortReported InvLaterRuns InvWhileCapped InvRunningInTime\n" % (a, b, c, d, e, f))
             return os.path.basename(p)
         r = vlib.tlc("Limits_MC", cfg("lim_ideal", "TRUE", "TRUE", "TRUE"), workers=vlib.NCPU, timeout_s=900)
         if not r.ok:
@@ -177,7 +200,8 @@ def run(rep, tier, seed, replay):
         for nm, a, invs in (("BudgetFromConstruction", ("FALSE", "TRUE", "TRUE"), ("InvLaterRuns",)), ("NoDeadlineWhileAsleep", ("TRUE", "FALSE", "TRUE"), ("InvRunEndsInTime", "InvRunningInTime")),
                             ("EmptyBodyNotCounted", ("TRUE", "TRUE", "FALSE"), ("InvWhileCapped",)),
                             ("EvalFindsStaleExitRequest", ("TRUE", "TRUE", "TRUE", "FALSE", "TRUE"), ("InvRunEndsInTime", "InvLaterRuns")),
-                            ("RefusedStartRenewsBudget", ("TRUE", "TRUE", "TRUE", "TRUE", "FALSE"), ("InvRunningInTime", "InvRunEndsInTime"))):
+                            ("RefusedStartRenewsBudget", ("TRUE", "TRUE", "TRUE", "TRUE", "FALSE"), ("InvRunningInTime", "InvRunEndsInTime")),
+                            ("NestedEvalOwnBudget", ("TRUE", "TRUE", "TRUE", "TRUE", "TRUE", "FALSE"), ("InvRunningInTime", "InvRunEndsInTime"))):
             r2 = vlib.tlc("Limits_MC", cfg("lim_dev", *a), workers=4, timeout_s=600)
             if r2.violated not in invs:
                 raise vlib.MachineryError("vacuity self-test: deviation %s should violate %s, got %s" % (nm, invs, r2.violated))
